@@ -221,12 +221,15 @@ class C04:
             ci, s, p = got
             self.check_matches(ci, s, p)
         # (c) Match._validate_match
-        got = self.validator(f"{DATA}.matches", "Match", "_validate_match", "before")
+        mci = ctx.index.need_class(f"{DATA}.matches", "Match")
+        mmode = next((v.mode for v in ctx.models.validators(mci, inherited=False) if v.name == "_validate_match" and v.kind == "model"), "after")
+        got = self.validator(f"{DATA}.matches", "Match", "_validate_match", mmode if mmode in ("before", "after") else "after")
         if got:
             ci, s, p = got
 
             def key(k):
-                return [("call", ("attr", p, "get"), (("const", k),), ()), ("call", ("attr", p, "get"), (("const", k), NONE), ())]
+                return [("call", ("attr", p, "get"), (("const", k),), ()), ("call", ("attr", p, "get"), (("const", k), NONE), ()),
+                        ("attr", p, k), ("sub", p, ("const", k))]
 
             trig = [g for g, _ in triggers(s)]
             src = [x for x in walk(("and", tuple(trig))) if x[0] == "cmp" and x[1] in ("is", "isnot") and x[3] == NONE and x[2] in key("source")]
@@ -389,6 +392,21 @@ class C04:
                         for x in walk(t):
                             if x[0] == "cmp" and x[1] in ("lt", "le", "gt", "ge") and (rooted(x[2]) or rooted(x[3])):
                                 hit = hit or (x, e)
+                # the relational validators of this property: the raw input need not be a mapping (JSON null / list / string):
+                # `.get` / subscripts on it without an isinstance guard leave as AttributeError / TypeError, not a validation error
+                if hit is None and ci.name in ("Match", "ClipEvaluation", "AnnotationProject", "Clip"):
+                    guarded = any(x[0] == "call" and x[1] == ("builtin", "isinstance") and x[2] and x[2][0] in raw
+                                  for e in s.events for t in (e.live, e.term) for x in walk(t))
+                    reads = [(x, e) for e in s.events for t in (e.live, e.term) for x in walk(t)
+                             if (x[0] == "call" and x[1][0] == "attr" and x[1][2] == "get" and x[1][1] in raw) or (x[0] == "sub" and x[1] in raw)]
+                    if reads and not guarded:
+                        x, e = reads[0]
+                        ctx.bad("R04.6", ci.module.relpath, f"{ci.name}.{v.name}", f"mode='before': {show(x)[:60]} on the raw input",
+                                f"{ci.name}.{v.name} runs in before mode and reads the raw input as a mapping (`{show(x)[:60]}`) without checking "
+                                f"that it is one: for {ci.name}.model_validate_json('null') / a list / a string -- e.g. a clip evaluation "
+                                f"document with \"matches\": [null] -- AttributeError / TypeError escapes pydantic where every other model "
+                                f"answers with a validation error", e.lineno, witness={"input": "null", "observed": "AttributeError"})
+                        continue
                 if hit:
                     x, e = hit
                     ctx.bad("R04.6", ci.module.relpath, f"{ci.name}.{v.name}", f"mode='before': {show(x)[:60]}",
